@@ -289,6 +289,46 @@ class H2(Case):
         return extra + obs
 
 
+class H2f(Case):
+    """CONCRETE observation in double precision (no solver contribution; complements H2): coupling operators built as
+    V diag(w) V^dagger in floating point -- Hermitian only up to rounding, which is what 'conjugated by arbitrary
+    unitaries' means for a user -- with repeated and zero eigenvalues are accepted by the real Bath (real LAPACK), and
+    the reported transform is unitary, gives real eigenvalues and reproduces the operator to 1e-10."""
+    stubs = ()
+    functions = ("Bath.__init__",)
+    validate = False
+
+    def __init__(self):
+        self.id = "H2f/float_products_accepted"
+        self.bounds = {"d": "2..4", "operators": "12 seeded V diag(w) V^dagger products (complex V from QR), spectra with repeated / zero eigenvalues",
+                       "arithmetic": "IEEE double, real LAPACK"}
+
+    def run(self, inp):
+        rng = np.random.RandomState(20260926)
+        spectra = {2: [[1.0, 1.0], [0.0, 0.5], [0.0, 0.0]], 3: [[1.0, 1.0, -0.5], [0.0, 0.0, 2.0], [0.3, 0.3, 0.3], [0.0, 1.0, 3.0]],
+                   4: [[0.5, 0.5, -0.5, -0.5], [0.0, 0.0, 0.0, 1.0], [1.0, 2.0, 2.0, 3.0]]}
+        obs, nonsym = [], 0
+        import oqupy.config as _cfg
+        with env.patched({"oqupy.bath.NpDtype": _cfg.NpDtype}):     # the real complex128 stack also inside the symbolic run
+            for d, lst in sorted(spectra.items()):
+                for w in lst:
+                    V, _ = np.linalg.qr(rng.normal(size=(d, d)) + 1j * rng.normal(size=(d, d)))
+                    O = (V * np.array(w)) @ V.conj().T
+                    nonsym += int(abs(O - O.conj().T).max() > 0)
+                    tag = "d=%d w=%s" % (d, w)
+                    try:
+                        b = oqupy.Bath(O, _Corr())
+                    except AssertionError as e:
+                        obs.append(Ob.holds("%s: Hermitian-up-to-rounding operator accepted (Bath raised: %s)" % (tag, str(e)[:50]), False, key="accepted-fp"))
+                        continue
+                    U, Dg = np.asarray(b._unitary), np.asarray(b._coupling_operator)
+                    ok = (abs(U @ U.conj().T - np.identity(d)).max() < 1e-10 and abs(U @ Dg @ U.conj().T - O).max() < 1e-10
+                          and abs(Dg - np.diag(Dg.diagonal())).max() < 1e-10 and abs(Dg.diagonal().imag).max() < 1e-10)
+                    obs.append(Ob.holds("%s: accepted; transform unitary, diagonal, real eigenvalues, reproduces the operator (1e-10)" % tag, bool(ok), key="accepted-fp"))
+        obs.append(Ob.holds("at least one of the products is not exactly Hermitian (the observation is not vacuous): %d" % nonsym, nonsym > 0, key="fp-nonvacuous"))
+        return obs
+
+
 def _make_allclose(inp, contingent):
     """np.allclose on symbolic operands without path forking on hard formulas: decided
     quickly if provable either way under the current assumptions, otherwise taken as True
@@ -318,7 +358,7 @@ def cases(tier):
           H1("mf", 2, "su2", 1, "id"), H1("tempo", 2, "su2", 1, "id", unique=True), H1("mf", 2, "su2", None, "id", unique=True),
           H1("tempo", 1, "su2", None, "gen", unique=True), H1("tempo", 1, "su2", None, "gen"), H1("mf", 1, "su2", None, "gen"), H1("pt", 2, "su2", None, "gen0"),
           H1("tempo", 2, "rot", 1, "gen0"), H1("pt", 2, "rot", 1, "gen0"), H1("tempo", 3, "su2", 1, "gen0"), H1("pt", 3, "su2", 1, "gen0"),
-          H2("p110"), H2("p123"), H2("p011"), H2("p101")]
+          H2("p110"), H2("p123"), H2("p011"), H2("p101"), H2f()]
     if tier == "thorough":
         cs += [H1("tempo", 3, "su2", 1, "id"), H1("pt", 3, "su2", 1, "id"), H1("mf", 3, "su2", None, "id"), H1("tempo", 2, "rot", None, "gen"),
                H1("pt", 2, "rot", None, "gen"), H1("tempo", 2, "su2", None, "gen0"), H1("mf", 3, "su2", 1, "gen0"), H2("p212"), H2("p1m12")]
